@@ -47,7 +47,9 @@ class LogEvidenceRatioModel(Contract):
 
     def model(self, I, info, bound, args, kwargs, node):
         beta = args[0] if args else kwargs["beta"]
-        return R(LER(data_of(bound), to_real(bound.f["beta"]), to_real(beta)))
+        out = R(LER(data_of(bound), to_real(bound.f["beta"]), to_real(beta)))
+        I.path.event("evidence.term", "ratio", out)
+        return out
 
 
 class LogEvidenceRatioVarianceModel(Contract):
@@ -59,7 +61,9 @@ class LogEvidenceRatioVarianceModel(Contract):
         t = LERV(data_of(bound), to_real(bound.f["beta"]), to_real(beta))
         I.path.assume(t >= 0, check=False)
         lemma(I, "lerv_nonneg: Var(w)/(n mean(w)^2) >= 0")
-        return R(t)
+        out = R(t)
+        I.path.event("evidence.term", "variance", out)
+        return out
 
 
 class LogsumexpModel(Contract):
